@@ -414,6 +414,41 @@ def check(run: Run) -> None:
                             "bound type the base: reversed, (TS[Dog], TS[Animal]) matches T=Dog although an Animal is not a Dog, and the legal (TS[Animal], TS[Dog]) is refused",
                             loc=fs.loc(c))
 
+    with run.obligation("C19.m", "K7", "constraints belong to every OCCURRENCE of a variable: in each of the three variable matchers (scalar, size, time-series) the already-bound "
+                        "branch re-checks this occurrence's constraints (`bound == concrete && <kind>_allowed_by_constraints(pattern, concrete)`) exactly as the unbound branch "
+                        "does - a variable may have been bound by an unconstrained occurrence, by the requested output or by a pinned resolution, and a candidate that "
+                        "survives with a type outside its constraint set ranks as MORE specific than its legitimate generic sibling"):
+        fi_ = run.tree.file(PAT)
+        txt_fn = {"scalar_allowed_by_constraints": 0, "size_allowed_by_constraints": 0, "ts_allowed_by_constraints": 0}
+        n_b = 0
+        for fd_ in fi_.funcs:
+            if fd_.body is None or "_allowed_by_constraints" not in fi_.text(fd_.body[0], fd_.body[1]) or fd_.name.endswith("_allowed_by_constraints"):
+                continue
+            fa_ = R.parse(run, fd_, strict=False)
+            cn_ = R.Canon()
+            # bound branches: a return of `X == concrete...` comparisons inside an if that tests the variable is bound
+            for r in R.find(fa_, lambda x: isinstance(x, C.Return)):
+                if r.e is None:
+                    continue
+                rt = cn_(r.e).replace(" ", "")
+                m_ = re.match(r"\(?(\*?bound==concrete\w*|concrete\w*==\*?bound)\)?", rt)
+                if not m_:
+                    continue
+                # only where the UNBOUND sibling branch of the same block checks a constraint (bundle-schema variables carry none)
+                holder = next((b for b in fa_.body.walk() if isinstance(b, C.Block) and any(isinstance(st, C.If) and any(x is r for x in st.then.walk()) for st in b.stmts)), None)
+                blocks = [b for b in fa_.body.walk() if isinstance(b, C.Block) and any(isinstance(st, C.If) and any(x is r for x in st.then.walk()) for st in b.stmts)]
+                holder = blocks[-1] if blocks else None
+                if holder is None or not any(isinstance(st, C.If) and "_allowed_by_constraints(" in cn_(st.cond) for st in holder.stmts):
+                    continue
+                n_b += 1
+                run.count(1, "C19.m")
+                kinds = [k for k in txt_fn if k + "(" in rt]
+                if not kinds:
+                    run.finding("C19.m", f"{fd_.name}:bound-variable-skips-constraints", f"{fd_.qual}: an already-bound variable is accepted with `{rt[:80]}` - this occurrence's constraints "
+                                "are not re-checked, so an overload whose constrained parameter comes after an unconstrained occurrence (or after the requested output) accepts a type "
+                                "outside its constraint set", loc=fa_.loc(r))
+        run.sites(n_b, 3, "already-bound variable branches")
+
 
 def _enum(run, rel, struct):
     fi = run.tree.file(rel)
@@ -424,6 +459,7 @@ def _enum(run, rel, struct):
 
 
 VARIANTS = [
+    {"id": "m-seed-C19-9-bound-ts-variable-skips-constraints", "expect": "C19.m", "edits": [{"file": PAT, "find": "                    return bound == concrete && ts_allowed_by_constraints(pattern, concrete);", "replace": "                    return bound == concrete;"}]},
     {"id": "l-seed-C19-7-is-a-direction-reversed", "expect": "C19.l", "edits": [{"file": "src/hgraph/types/type_pattern.cpp", "find": "TypeRegistry::instance().bundle_is_a(concrete, bound))", "replace": "TypeRegistry::instance().bundle_is_a(bound, concrete))"}]},
     {"id": "l-seed-C19-8-bundle-field-matched-by-plain-matcher", "expect": "C19.l", "edits": [{"file": "src/hgraph/types/type_pattern.cpp", "find": "                    if (!input_ts_pattern_match(pattern.children[i], field.type, map)) { return false; }", "replace": "                    if (!ts_pattern_match(pattern.children[i], field.type, map)) { return false; }"}]},
     {"id": "j-first-occurrence-wins", "expect": "C19.j", "edits": [{"file": "include/hgraph/types/operator_dispatch.h", "find": "                auto [it, inserted] = vars.emplace(std::move(key), rank);\n                if (!inserted && rank < it->second) { it->second = rank; }", "replace": "                vars.try_emplace(std::move(key), rank);"}]},
